@@ -142,7 +142,7 @@ fn strip_opts(o: &lipe_find_parser::RunOptions) -> String {
 }
 
 pub fn run(ctx: &Ctx, rep: &mut Report) {
-    let n = ctx.pick(2000, 100_000);
+    let n = ctx.pick(2000, 400_000);
     let variants = ctx.pick(40, 60);
     par_cases(ctx, "expr", n, rep, |i, rep| {
         let mut r = Rng::for_case(ctx.seed, "expr", i);
@@ -218,7 +218,7 @@ pub fn run(ctx: &Ctx, rep: &mut Report) {
                     if tree != base.1 || strip_opts(&o) != strip_opts(&base.0) {
                         let sig = classify(&text);
                         rep.violation(&format!("C06:variant-differs:{}", sig), &format!("canonical {:?} and the equivalent spelling {:?} give different results: {:?} vs {:?}", canonical, text, base.1, tree), &case, J::obj(vec![("canonical", J::s(&canonical)), ("variant", J::s(&text))]));
-                    } else if rep.samples.len() < 5 && axes >= 3 {
+                    } else if rep.samples.is_empty() || (rep.samples.len() < 5 && axes >= 3) {
                         rep.sample(J::obj(vec![("canonical", J::s(&canonical)), ("variant", J::s(&text)), ("verdict", J::s("equal options and tree"))]));
                     }
                 }
